@@ -369,13 +369,18 @@ Proof.
   - intros E. destruct (V1 m) as [L1 Q1], (V2 m) as [L2 Q2]. rewrite Q2, Q1; auto; lia.
 Qed.
 
-Lemma node_inv_frame st st' sn : Frame st st' -> node_inv st sn -> node_inv st' sn.
+Lemma node_inv_mono st st' sn :
+  (forall m, verT st m <= verT st' m /\ (verT st m = verT st' m -> outT st' m = outT st m)) ->
+  node_inv st sn -> node_inv st' sn.
 Proof.
-  intros (G & V & F) H dv Hd Hc. destruct (H dv Hd Hc) as (sv & sx & l & P & E & C & M).
+  intros V H dv Hd Hc. destruct (H dv Hd Hc) as (sv & sx & l & P & E & C & M).
   exists sv, sx, l. repeat split; auto; destruct (M d H0) as [L Q], (V d) as [L' Q'].
   - lia.
   - intros E'. rewrite Q', Q; auto; lia.
 Qed.
+
+Lemma node_inv_frame st st' sn : Frame st st' -> node_inv st sn -> node_inv st' sn.
+Proof. intros (G & V & F). apply node_inv_mono; auto. Qed.
 
 Lemma cmp_deps_false s st L dv : cmp_deps s st L dv = Some false -> length L = length dv ->
   map (verT st) L = dv /\ forall d, In d L -> s d = Some false.
@@ -538,3 +543,301 @@ Section ValueSpec.
       + intros m Hm. unfold st'. rewrite nth_error_set_nth_neq; [apply Lo1; lia|]. intros ->; lia.
   Qed.
 End ValueSpec.
+
+(* ------------------------------------------------------------------------------------------ *)
+(** * Part 3: every state reachable from [init] is well formed; reads are fresh *)
+
+Definition WF (st : store) : Prop := Inv st /\ exists rk, ranked (graph_of st) rk.
+
+Lemma init_ports_empty (fs : list (string * bool)) :
+  concat (map (fun p : string * port => port_ids (snd p))
+              (map (fun f : string * bool => (fst f, if snd f then Array [] else Scalar None)) fs)) = [].
+Proof. induction fs as [|[nm []] r IH]; simpl; auto. Qed.
+
+Lemma init_WF ds : WF (nodes (init ds)).
+Proof.
+  split.
+  - intros n sn En. simpl in En. rewrite nth_error_map in En.
+    destruct (nth_error ds n) as [[v|fs proc]|]; try discriminate. injection En as <-.
+    intros dv Hdv. discriminate.
+  - exists (fun _ => 0). intros n ins proc d En Hd. exfalso.
+    rewrite graph_nth in En. simpl in En. rewrite nth_error_map in En.
+    destruct (nth_error ds n) as [[v|fs proc']|]; try discriminate. injection En as <- <-.
+    unfold ids_of in Hd. simpl in Hd. rewrite init_ports_empty in Hd. destruct Hd.
+Qed.
+
+Definition rewired_node (sn : snode) (ps : list (string * port)) : snode :=
+  {| sn_ports := ps; sn_proc := sn_proc sn; sn_ver := sn_ver sn; sn_cache := sn_cache sn;
+     sn_depvers := sn_depvers sn; sn_dirty := true; sn_execs := sn_execs sn; sn_edits := S (sn_edits sn) |}.
+
+Lemma rewire_inv st n input src st' : rewire st n input src = Some st' ->
+  exists sn ps, nth_error st n = Some (Struct sn) /\ set_input (sn_ports sn) input src = Some ps /\
+                st' = set_nth n (Struct (rewired_node sn ps)) st.
+Proof.
+  unfold rewire. destruct (nth_error st n) as [[| sn]|]; try discriminate.
+  intros H. inv_bind H. injection H as <-. exists sn, a. auto.
+Qed.
+
+Lemma remove_at_incl {A} k (l : list A) : incl (remove_at k l) l.
+Proof.
+  revert k; induction l; destruct k; simpl; try apply incl_refl.
+  - apply incl_tl, incl_refl.
+  - apply incl_cons; [left; auto|]. apply incl_tl; auto.
+Qed.
+
+Lemma upd_port_incl nm f ps ps' : upd_port nm f ps = Some ps' ->
+  (forall p p', f p = Some p' -> incl (port_ids p') (port_ids p)) ->
+  incl (concat (map (fun p : string * port => port_ids (snd p)) ps'))
+       (concat (map (fun p : string * port => port_ids (snd p)) ps)).
+Proof.
+  revert ps'; induction ps as [|[k p] r IH]; simpl; intros ps' H Hf; [discriminate|].
+  destruct (String.eqb k nm).
+  - inv_bind H. injection H as <-. simpl. apply incl_app; [apply incl_appl; eauto | apply incl_appr, incl_refl].
+  - inv_bind H. injection H as <-. simpl. apply incl_app; [apply incl_appl, incl_refl | apply incl_appr; eauto].
+Qed.
+
+Lemma set_input_none_incl ps input ps' : set_input ps input None = Some ps' ->
+  incl (concat (map (fun p : string * port => port_ids (snd p)) ps'))
+       (concat (map (fun p : string * port => port_ids (snd p)) ps)).
+Proof.
+  unfold set_input. destruct (split_dot input) as [nm [suffix|]]; intros H.
+  - inv_bind H. eapply upd_port_incl; [exact H|]. intros [src|l] p' Hp; [discriminate|].
+    destruct (a <? length l); [|discriminate]. injection Hp as <-. simpl. apply remove_at_incl.
+  - eapply upd_port_incl; [exact H|]. intros [src|l] p' Hp; injection Hp as <-; simpl;
+      intros x [].
+Qed.
+
+Lemma inv_unchanged_vo st st' :
+  (forall m, verT st' m = verT st m /\ outT st' m = outT st m) ->
+  forall sn, node_inv st sn -> node_inv st' sn.
+Proof.
+  intros H sn. apply node_inv_mono. intros m. destruct (H m) as [-> ->]. split; auto.
+Qed.
+
+Lemma step_store_WF po st o st' r : perm_ok po -> WF st -> step_store po st o = Some (st', r) -> WF st'.
+Proof.
+  intros PO [I [rk Rk]] H. destruct o as [n v | n input src | n input | n]; cbn [step_store] in H.
+  - (* SetParam *)
+    destruct (nth_error st n) as [[ver w sets|]|] eqn:En; try discriminate. injection H as <- <-.
+    split.
+    + intros k snk Ek. destruct (Nat.eq_dec n k) as [<- | Hne].
+      * rewrite nth_error_set_nth_eq in Ek by (eapply nth_error_some_lt; eauto). discriminate.
+      * rewrite nth_error_set_nth_neq in Ek; auto. eapply node_inv_mono; [|apply (I _ _ Ek)].
+        intros m. destruct (Nat.eq_dec n m) as [<- | Hnm].
+        -- unfold verT, ver_of. rewrite nth_error_set_nth_eq by (eapply nth_error_some_lt; eauto).
+           rewrite En. split; [lia|]. intros; lia.
+        -- rewrite verT_set_nth_neq, outT_set_nth_neq; auto.
+    + exists rk. eapply ranked_incl; [exact Rk|]. intros m ins' proc' Em.
+      rewrite graph_nth in Em. destruct (Nat.eq_dec n m) as [<- | Hnm].
+      * rewrite nth_error_set_nth_eq in Em by (eapply nth_error_some_lt; eauto). discriminate.
+      * rewrite nth_error_set_nth_neq in Em; auto. exists ins', proc'. rewrite graph_nth. split; auto.
+        apply incl_refl.
+  - (* Connect *)
+    destruct (src <? length st); [|discriminate]. inv_bind H.
+    destruct (acyclic_b (graph_of a)) eqn:Ea; [|discriminate]. injection H as <- <-.
+    destruct (rewire_inv _ _ _ _ _ E) as (sn & ps & En & Hps & ->).
+    split; [|apply acyclic_ranked; auto].
+    intros k snk Ek. destruct (Nat.eq_dec n k) as [<- | Hne].
+    + rewrite nth_error_set_nth_eq in Ek by (eapply nth_error_some_lt; eauto). injection Ek as <-.
+      intros dv _ Hd. discriminate.
+    + rewrite nth_error_set_nth_neq in Ek; auto. eapply inv_unchanged_vo; [|apply (I _ _ Ek)].
+      intros m. destruct (Nat.eq_dec n m) as [<- | Hnm].
+      * unfold verT, ver_of, outT. rewrite nth_error_set_nth_eq by (eapply nth_error_some_lt; eauto).
+        rewrite En. auto.
+      * rewrite verT_set_nth_neq, outT_set_nth_neq; auto.
+  - (* Disconnect *)
+    inv_bind H. injection H as <- <-.
+    destruct (rewire_inv _ _ _ _ _ E) as (sn & ps & En & Hps & ->).
+    split.
+    + intros k snk Ek. destruct (Nat.eq_dec n k) as [<- | Hne].
+      * rewrite nth_error_set_nth_eq in Ek by (eapply nth_error_some_lt; eauto). injection Ek as <-.
+        intros dv _ Hd. discriminate.
+      * rewrite nth_error_set_nth_neq in Ek; auto. eapply inv_unchanged_vo; [|apply (I _ _ Ek)].
+        intros m. destruct (Nat.eq_dec n m) as [<- | Hnm].
+        -- unfold verT, ver_of, outT. rewrite nth_error_set_nth_eq by (eapply nth_error_some_lt; eauto).
+           rewrite En. auto.
+        -- rewrite verT_set_nth_neq, outT_set_nth_neq; auto.
+    + exists rk. eapply ranked_incl; [exact Rk|]. intros m ins' proc' Em.
+      rewrite graph_nth in Em. destruct (Nat.eq_dec n m) as [<- | Hnm].
+      * rewrite nth_error_set_nth_eq in Em by (eapply nth_error_some_lt; eauto).
+        simpl in Em. injection Em as <- <-. exists (ids_of sn), (sn_proc sn).
+        rewrite graph_nth, En. split; auto. apply set_input_none_incl in Hps. exact Hps.
+      * rewrite nth_error_set_nth_neq in Em; auto. exists ins', proc'. rewrite graph_nth. split; auto.
+        apply incl_refl.
+  - (* Read *)
+    inv_bind H. destruct a as [st1 v]. injection H as <- <-.
+    destruct (value_spec po PO rk _ _ _ _ _ (conj I Rk) E) as (_ & _ & [I' R'] & _).
+    split; eauto.
+Qed.
+
+Definition oracle_ok (orc : oracle) : Prop := forall c, perm_ok (orc c).
+
+Lemma step_WF orc s o s' r : oracle_ok orc -> WF (nodes s) -> step orc s o = Some (s', r) -> WF (nodes s').
+Proof.
+  intros PO W H. unfold step in H. inv_bind H. destruct a as [st' r']. injection H as <- <-.
+  simpl. eapply step_store_WF; eauto.
+Qed.
+
+Lemma run_WF orc : oracle_ok orc -> forall h s s', WF (nodes s) -> run orc s h = Some s' -> WF (nodes s').
+Proof.
+  intros PO. induction h as [|o r IH]; simpl; intros s s' W H.
+  - injection H as <-. auto.
+  - inv_bind H. destruct a as [s1 res]. eapply IH; [|exact H]. eapply step_WF; eauto.
+Qed.
+
+Lemma read_inv orc s n s' v : read orc s n = Some (s', v) ->
+  value (orc (clock s)) (fuel_of (nodes s)) (nodes s) n = Some (nodes s', v).
+Proof.
+  intros H. unfold read in H. destruct (step orc s (Read n)) as [[s1 [|w]]|] eqn:E; try discriminate.
+  injection H as <- <-. unfold step in E. apply bind_some in E as [[st' r] [E1 E2]].
+  injection E2 as Hs Hr. subst s1 r. cbn [step_store] in E1. apply bind_some in E1 as [[st2 w'] [E3 E4]].
+  injection E4 as Hs Hr. subst st2 w'. exact E3.
+Qed.
+
+(* freshness, for every enumeration order (any oracle that returns permutations) *)
+Theorem read_fresh_any_order orc ds h s n s' v :
+  oracle_ok orc -> run orc (init ds) h = Some s -> read orc s n = Some (s', v) ->
+  eval_now s n = Some v /\ eval_now s' n = Some v /\ graph_of (nodes s') = graph_of (nodes s).
+Proof.
+  intros PO Hr Hread. apply read_inv in Hread.
+  destruct (run_WF orc PO _ _ _ (init_WF ds) Hr) as [I [rk Rk]].
+  destruct (value_spec _ (PO _) rk _ _ _ _ _ (conj I Rk) Hread) as (He & _ & _ & (G & _ & _) & _).
+  unfold eval_now. split; auto. split; auto. rewrite G. unfold fuel_of.
+  replace (length (nodes s')) with (length (nodes s)); auto.
+  rewrite <- (map_length erase (nodes s)), <- (map_length erase (nodes s')).
+  fold (graph_of (nodes s)). fold (graph_of (nodes s')). congruence.
+Qed.
+
+Lemma insert_dep_perm x l : Permutation (insert_dep x l) (x :: l).
+Proof.
+  induction l as [|y r IH]; simpl; auto. destruct (str_ltb (fst y) (fst x)); auto.
+  rewrite IH. apply perm_swap.
+Qed.
+Lemma sort_deps_perm l : Permutation (sort_deps l) l.
+Proof. induction l; simpl; auto. rewrite insert_dep_perm. auto. Qed.
+Lemma sorted_oracle_ok : oracle_ok sorted_oracle.
+Proof. intros c ph n l. apply sort_deps_perm. Qed.
+
+(* ------------------------------------------------------------------------------------------ *)
+(** * Part 4: what a read may change; version = number of executions *)
+
+Definition node_le (x y : node) : Prop :=
+  match x, y with
+  | Param _ _ _, Param _ _ _ => x = y
+  | Struct s, Struct s' =>
+      sn_ports s' = sn_ports s /\ sn_proc s' = sn_proc s /\ sn_edits s' = sn_edits s /\
+      exists k, sn_ver s' = sn_ver s + k /\ sn_execs s' = sn_execs s + k
+  | _, _ => False
+  end.
+Definition store_le (st st' : store) : Prop :=
+  length st' = length st /\
+  forall m x, nth_error st m = Some x -> exists y, nth_error st' m = Some y /\ node_le x y.
+
+Lemma node_le_refl x : node_le x x.
+Proof. destruct x; simpl; auto. repeat split; auto. exists 0. lia. Qed.
+Lemma node_le_trans x y z : node_le x y -> node_le y z -> node_le x z.
+Proof.
+  destruct x, y, z; simpl; try tauto; try congruence.
+  intros (A1 & B1 & C1 & k1 & D1 & E1) (A2 & B2 & C2 & k2 & D2 & E2).
+  repeat split; try congruence. exists (k1 + k2). lia.
+Qed.
+Lemma store_le_refl st : store_le st st.
+Proof. split; auto. intros m x H. exists x. split; auto. apply node_le_refl. Qed.
+Lemma store_le_trans a b c : store_le a b -> store_le b c -> store_le a c.
+Proof.
+  intros [L1 H1] [L2 H2]. split; [congruence|]. intros m x Hx.
+  destruct (H1 _ _ Hx) as (y & Hy & Lxy). destruct (H2 _ _ Hy) as (z & Hz & Lyz).
+  exists z. split; auto. eapply node_le_trans; eauto.
+Qed.
+
+Lemma value_le po : forall f st n st' v, value po f st n = Some (st', v) -> store_le st st'.
+Proof.
+  induction f as [|f0 IH]; intros st n st' v H; [discriminate|].
+  destruct (value_inv _ _ _ _ _ _ H) as (f1 & Ef & Hc). injection Ef as <-.
+  destruct Hc as [(ver & sets & En & ->) | [(sn & En & Hs & -> & ->) | (sn & st1 & ins & vers & En & Hs & Hr & Hv & Ev & ->)]];
+    try apply store_le_refl.
+  destruct (read_ports_split (value po f0) store_le (fun _ => True) store_le_refl store_le_trans)
+    with (ps := ids_of sn) (st := st) (st1 := st1) (xss := ins) as [[L1 R1] _]; auto.
+  { intros; eapply IH; eauto. }
+  { apply Forall_nested_concat; auto. }
+  split; [rewrite set_nth_length; auto|]. intros m x Hx.
+  destruct (Nat.eq_dec n m) as [<- | Hne].
+  - rewrite nth_error_set_nth_eq by (rewrite L1; eapply nth_error_some_lt; eauto).
+    eexists; split; eauto. rewrite En in Hx. injection Hx as <-. simpl.
+    repeat split; auto. exists 1. lia.
+  - rewrite nth_error_set_nth_neq; auto.
+Qed.
+
+Definition vc_node (x : node) : Prop :=
+  match x with Param ver _ sets => ver = sets | Struct sn => sn_ver sn = sn_execs sn end.
+Definition VC (st : store) : Prop := forall m x, nth_error st m = Some x -> vc_node x.
+
+Lemma store_le_back st st' m y : store_le st st' -> nth_error st' m = Some y ->
+  exists x, nth_error st m = Some x /\ node_le x y.
+Proof.
+  intros [L H] Hy. destruct (nth_error st m) as [x|] eqn:Ex.
+  - destruct (H _ _ Ex) as (y' & Hy' & Le). exists x. split; auto. congruence.
+  - apply nth_error_None in Ex. apply nth_error_some_lt in Hy. lia.
+Qed.
+
+Lemma VC_le st st' : store_le st st' -> VC st -> VC st'.
+Proof.
+  intros Le V m y Hy. destruct (store_le_back _ _ _ _ Le Hy) as (x & Hx & L).
+  specialize (V _ _ Hx). destruct x, y; simpl in *; try tauto; try congruence.
+  destruct L as (_ & _ & _ & k & A & B). lia.
+Qed.
+
+Lemma VC_set_nth st n y : VC st -> vc_node y -> VC (set_nth n y st).
+Proof.
+  intros V Hy m x Hx. destruct (Nat.eq_dec n m) as [<- | Hne].
+  - destruct (Nat.lt_ge_cases n (length st)).
+    + rewrite nth_error_set_nth_eq in Hx; auto. congruence.
+    + assert (nth_error (set_nth n y st) n = None) by (apply nth_error_None; rewrite set_nth_length; auto).
+      congruence.
+  - rewrite nth_error_set_nth_neq in Hx; eauto.
+Qed.
+
+Lemma step_store_VC po st o st' r : VC st -> step_store po st o = Some (st', r) -> VC st'.
+Proof.
+  intros V H. destruct o as [n v | n input src | n input | n]; cbn [step_store] in H.
+  - destruct (nth_error st n) as [[ver w sets|]|] eqn:En; try discriminate. injection H as <- <-.
+    apply VC_set_nth; auto. specialize (V _ _ En). simpl in *. lia.
+  - destruct (src <? length st); [|discriminate]. inv_bind H.
+    destruct (acyclic_b (graph_of a)); [|discriminate]. injection H as <- <-.
+    destruct (rewire_inv _ _ _ _ _ E) as (sn & ps & En & Hps & ->).
+    apply VC_set_nth; auto. apply (V _ _ En).
+  - inv_bind H. injection H as <- <-.
+    destruct (rewire_inv _ _ _ _ _ E) as (sn & ps & En & Hps & ->).
+    apply VC_set_nth; auto. apply (V _ _ En).
+  - inv_bind H. destruct a as [st1 v]. injection H as <- <-.
+    eapply VC_le; [eapply value_le; eauto|auto].
+Qed.
+
+Lemma run_VC orc : forall h s s', VC (nodes s) -> run orc s h = Some s' -> VC (nodes s').
+Proof.
+  induction h as [|o r IH]; simpl; intros s s' W H.
+  - injection H as <-. auto.
+  - inv_bind H. destruct a as [s1 res]. eapply IH; [|exact H].
+    unfold step in E. inv_bind E. destruct a as [st' r']. injection E as <- <-. simpl.
+    eapply step_store_VC; eauto.
+Qed.
+
+Lemma init_VC ds : VC (nodes (init ds)).
+Proof.
+  intros m x H. simpl in H. rewrite nth_error_map in H.
+  destruct (nth_error ds m) as [[v|fs proc]|]; try discriminate; injection H as <-; reflexivity.
+Qed.
+
+(* Version() = number of executions (struct nodes) / number of updates (parameters), in every
+   reachable state, whatever the enumeration order *)
+Theorem version_counts orc ds h s :
+  run orc (init ds) h = Some s ->
+  forall n, match nth_error (nodes s) n with
+            | Some (Struct sn) => sn_ver sn = sn_execs sn
+            | Some (Param ver _ sets) => ver = sets
+            | None => True
+            end.
+Proof.
+  intros H n. pose proof (run_VC orc _ _ _ (init_VC ds) H) as V.
+  destruct (nth_error (nodes s) n) as [x|] eqn:E; auto. apply (V _ _ E).
+Qed.
